@@ -55,7 +55,7 @@ over={
  ("x/gov.processEnactmentProposal","panic"):"unreachable: enactment queue entries are written with the proposal; proposals are never deleted",
  ("x/gov/types.ProposalRouter.AllowedAddressesDynamicProposal","panic"):"unreachable: same content type already routed at submission (state-independent, input_only_panics_filtered)",
  ("x/gov/types.ProposalRouter.QuorumDynamicProposal","panic"):"unreachable: same content type already routed at submission (state-independent)",
- ("x/gov/keeper.Keeper.GetNetworkActorOrFail","panic"):"unreachable: permission/role index entries are written and removed together with the actor record (C07 refinement)",
+ ("x/gov/keeper.Keeper.GetNetworkActorOrFail","panic"):"unreachable while every WRITER keeps the permission / role index entries and the actor record together: x/gov keeper (AddWhitelistPermission, RemoveWhitelistedPermission, AssignRoleToActor, UnassignRoleFromActor, SaveNetworkActor, DeleteNetworkActor) and, outside x/gov, the address-rotation blocks of x/recovery msgServer.RotateRecoveryAddress / RotateValidatorByHalfRRTokenHolder, which move actor, roles and individual permission index entries -- those callers are pinned in foreign_writer_pins (C06_foreign_writers_unchanged); exercised by the actor-perturbation histories",
  ("x/gov/keeper.Keeper.GetAverageVotesSlash","quo"):"guarded: returns zero when there is no Yes vote (totalCount == 0) before dividing by the Yes-vote count; exercised by the gov-vote-patterns histories (every vote pattern, run past the enactment end)",
  ("x/gov/types.CalculatedVotes.ProcessResult","div"):"float32 division: no panic (C08 covers the result)",
  ("x/gov/types.CalculatedPollVotes.ProcessResult","div"):"float32 division: no panic",
@@ -114,6 +114,17 @@ def emit(name,l,pin):
     out.append("].")
 emit("covered_table",cov,True)
 emit("audit_table",aud,True)
+# writers of another module's state (callers pinned by fingerprint; union over the accepted trees)
+fwp=collections.OrderedDict()
+for a in args:
+    m=re.search(r'Definition foreign_writers.*?:= \[(.*?)\n\]\.',open(a).read(),re.S)
+    if m:
+        for fn,callees,h in re.findall(r'\("([^"]*)", "([^"]*)", "([^"]*)"\)',m.group(1)):
+            fwp.setdefault(fn,[])
+            if h not in fwp[fn]: fwp[fn].append(h)
+out.append("Definition foreign_writer_pins : list (string * list string) := [")
+out.append(";\n".join("  (%s, [%s])"%(q(fn),"; ".join(q(h) for h in hs)) for fn,hs in fwp.items()))
+out.append("].")
 text="\n".join(out)+"\n"
 if splice:
     t=open(splice).read()
